@@ -26,6 +26,7 @@ const (
 	FDialFail    = "dial-fail"
 	FEOFData     = "eof+data"               // counted when a read returns data together with io.EOF
 	FWriteBroken = "write-direction-broken" // counted per failed write of a side whose outgoing direction was broken
+	FTimeout     = "deadline-passed"        // a Read or Write gave up at its deadline
 	FCut         = "cut-at-byte"            // the incoming stream ends (EOF or reset) after exactly N bytes were read
 	FFrag        = "frag"                   // counted when a read returns less than was available and asked for
 	FStallWrite  = "backpressure"
@@ -277,6 +278,8 @@ type Conn struct {
 	closed    bool
 	node      string
 	faultable bool
+	rdeadline time.Time
+	wdeadline time.Time
 }
 
 // Pair returns the connection pair id.
@@ -571,8 +574,14 @@ func (c *Conn) Read(p []byte) (int, error) {
 		}
 		ch := h.wait
 		h.mu.Unlock()
-		zzsim.Blocking("net.Read.blocked")
-		<-ch
+		c.mu.Lock()
+		dl := c.rdeadline
+		c.mu.Unlock()
+		if waitUntil(ch, dl, "net.Read.blocked") {
+			zzsim.W("net.Read.wake")
+			c.nw.fire(FTimeout)
+			return 0, ErrTimeout
+		}
 		zzsim.W("net.Read.wake")
 	}
 }
@@ -674,8 +683,15 @@ func (c *Conn) Write(p []byte) (int, error) {
 		}
 		ch := h.wait
 		h.mu.Unlock()
-		zzsim.Blocking("net.Write.blocked")
-		<-ch
+		c.mu.Lock()
+		dl := c.wdeadline
+		c.mu.Unlock()
+		if waitUntil(ch, dl, "net.Write.blocked") {
+			zzsim.W("net.Write.wake")
+			c.nw.fire(FTimeout)
+			zzsim.Event("write pair=%d side=%d timed out after %d of %d bytes", c.pair, c.side, n, len(p))
+			return n, ErrTimeout
+		}
 		zzsim.W("net.Write.wake")
 	}
 	zzsim.EventKey(fmt.Sprintf("write %d %d", c.pair, c.side), "write pair=%d side=%d n=%d", c.pair, c.side, n)
@@ -721,11 +737,64 @@ func (c *Conn) Close() error {
 	return nil
 }
 
-func (c *Conn) LocalAddr() net.Addr                { return c.local }
-func (c *Conn) RemoteAddr() net.Addr               { return c.remote }
-func (c *Conn) SetDeadline(t time.Time) error      { return nil }
-func (c *Conn) SetReadDeadline(t time.Time) error  { return nil }
-func (c *Conn) SetWriteDeadline(t time.Time) error { return nil }
+func (c *Conn) LocalAddr() net.Addr  { return c.local }
+func (c *Conn) RemoteAddr() net.Addr { return c.remote }
+
+// Deadlines are honoured on the simulated clock: a Read or a Write still
+// blocked when its deadline passes returns what it has done so far and a
+// timeout error (a Write: the bytes already accepted stay in the stream).
+func (c *Conn) SetDeadline(t time.Time) error {
+	c.SetReadDeadline(t)
+	return c.SetWriteDeadline(t)
+}
+func (c *Conn) SetReadDeadline(t time.Time) error {
+	c.mu.Lock()
+	c.rdeadline = t
+	c.mu.Unlock()
+	return nil
+}
+func (c *Conn) SetWriteDeadline(t time.Time) error {
+	c.mu.Lock()
+	c.wdeadline = t
+	c.mu.Unlock()
+	return nil
+}
+
+// ErrTimeout is what an operation returns when its deadline passes.
+var ErrTimeout error = timeoutError{}
+
+type timeoutError struct{}
+
+func (timeoutError) Error() string   { return "simnet: i/o timeout" }
+func (timeoutError) Timeout() bool   { return true }
+func (timeoutError) Temporary() bool { return true }
+
+// waitUntil blocks until ch fires or the deadline passes (zero: never);
+// it reports whether the deadline passed.
+func waitUntil(ch chan struct{}, deadline time.Time, site string) bool {
+	zzsim.Blocking(site)
+	if deadline.IsZero() {
+		<-ch
+		return false
+	}
+	d := time.Until(deadline)
+	if d <= 0 {
+		select {
+		case <-ch:
+			return false
+		default:
+			return true
+		}
+	}
+	t := time.NewTimer(d)
+	defer t.Stop()
+	select {
+	case <-ch:
+		return false
+	case <-t.C:
+		return true
+	}
+}
 
 // ---------------------------------------------------------------------------
 
